@@ -2,8 +2,11 @@
    Block level: for every block-mode backend as dispatched by the interpreter, every schedule, the
    in-place run on data ds and the buffer-to-buffer run from ds into ANY output contents produce
    the same output blocks and leave the same chaining state.  The model's bodies are written with
-   read/write primitives whose meaning depends on aliasing (Cell.v), so this is not definitional. *)
-From BM Require Import BlockModes Spec BlockModes_proofs Plumbing Interp Interp_proofs.
+   read/write primitives whose meaning depends on aliasing (Cell.v), so this is not definitional.
+   Byte level: the one-shot calls, the padded calls, the twelve ciphertext-stealing bodies and the
+   keystream wrappers (CTR all flavours, BelT-CTR, OFB), output AND state/position. *)
+From BM Require Import BlockModes Spec BlockModes_proofs Plumbing Outcome Toy Ints Ctr Belt Stream Stream_proofs Cts Cts_mem Cts_cs_proofs
+  Interp Interp_proofs Wrapper_proofs Wrapper_inst Inplace_proofs.
 
 Theorem C12_block_modes : forall (C : cipher) (k : bkind) sched st ds junk,
   length junk = length ds -> sched_total sched = length ds ->
@@ -30,3 +33,61 @@ Example C12_primitives_distinguish :
   rd_in (wr_out (cell_ip [1%N]) [2%N]) = [2%N] /\ rd_in (wr_out (cell_b2b [1%N] [9%N]) [2%N]) = [1%N].
 Proof. split; reflexivity. Qed.
 Print Assumptions C12_primitives_distinguish.
+
+(* ---- byte-level front-ends ---- *)
+
+(* one-shot (AsyncStreamCipher) call of any mode: output and state *)
+Theorem C12_oneshot : forall (C : cipher) k st (inb junk : list N), 0 < bm_mbs C k -> length junk = length inb ->
+  async_inout (bm_mbs C k) (bm_single C k) (bm_blocks C k) st false inb junk =
+  async_inout (bm_mbs C k) (bm_single C k) (bm_blocks C k) st true inb inb.
+Proof. exact async_inplace_b2b. Qed.
+Print Assumptions C12_oneshot.
+
+(* padded encryption of msg into a separate buffer = in place in a buffer of the same length that starts with msg *)
+Theorem C12_padded_enc : forall (C : cipher) k P st (msg rest out : list N), 0 < bm_mbs C k -> length out = length (msg ++ rest) ->
+  enc_padded_b2b (bm_mbs C k) (bm_single C k) (bm_blocks C k) P st msg out =
+  enc_padded_ip (bm_mbs C k) (bm_single C k) (bm_blocks C k) P st (msg ++ rest) (length msg).
+Proof. exact enc_padded_inplace_b2b. Qed.
+Print Assumptions C12_padded_enc.
+
+Theorem C12_padded_dec : forall (C : cipher) k P st (inb out : list N), 0 < bm_mbs C k -> length inb <= length out ->
+  dec_padded_b2b (bm_mbs C k) (bm_blocks C k) P st inb out = dec_padded_ip (bm_mbs C k) (bm_blocks C k) P st inb.
+Proof. exact dec_padded_inplace_b2b. Qed.
+Print Assumptions C12_padded_dec.
+
+(* ciphertext stealing, all six variants, both directions, every length >= one block (the objects hold no
+   state besides key and IV): both calls succeed and write the same bytes *)
+Theorem C12_cts : forall (C : cipher), cipher_wf C -> forall v enc iv (data junk : list N),
+  length iv = c_bs C -> c_bs C <= length data -> length junk = length data ->
+  exists o1 o2, cts_run C v enc iv (mkmem true data data) = Ok o1 /\ cts_run C v enc iv (mkmem false data junk) = Ok o2 /\
+                m_out o1 = m_out o2.
+Proof. exact cts_inplace_b2b. Qed.
+Print Assumptions C12_cts.
+
+(* keystream wrappers: one buffer-to-buffer call = the in-place call: output, buffer position, core state *)
+Theorem C12_ctr_wrapper : forall cs be (C : cipher) (nonce : list N), cipher_wf C -> c_bs C = cs * length nonce ->
+  forall nb wst (inb junk : list N), CtrInv cs be C nonce nb wst -> length inb = length junk ->
+  let K := kscore C (SCtr cs be) in
+  (N.of_nat (length inb) <= usize_max)%N -> fits K (ctr_limit cs) nb (wr_pos wst) (length inb) ->
+  exists w1 w2 out, try_apply K wst false inb junk = Ok (w1, out) /\ try_apply K wst true inb inb = Ok (w2, out) /\
+                    wr_pos w1 = wr_pos w2 /\ wr_core w1 = wr_core w2.
+Proof. exact ctr_wrapper_inplace_b2b. Qed.
+Print Assumptions C12_ctr_wrapper.
+
+Theorem C12_belt_wrapper : forall (C : cipher) si, cipher_wf C -> c_bs C = 16 -> (si < pow2 128)%N ->
+  forall nb wst (inb junk : list N), BeltInv C si nb wst -> length inb = length junk ->
+  let K := kscore C SBelt in
+  (N.of_nat (length inb) <= usize_max)%N -> fits K belt_limit nb (wr_pos wst) (length inb) ->
+  exists w1 w2 out, try_apply K wst false inb junk = Ok (w1, out) /\ try_apply K wst true inb inb = Ok (w2, out) /\
+                    wr_pos w1 = wr_pos w2 /\ wr_core w1 = wr_core w2.
+Proof. exact belt_wrapper_inplace_b2b. Qed.
+Print Assumptions C12_belt_wrapper.
+
+Theorem C12_ofb_wrapper : forall (C : cipher) iv, cipher_wf C -> length iv = c_bs C ->
+  forall nb wst (inb junk : list N), OfbInv C iv nb wst -> length inb = length junk ->
+  let K := kscore C SOfb in
+  (N.of_nat (length inb) <= usize_max)%N ->
+  exists w1 w2 out, try_apply K wst false inb junk = Ok (w1, out) /\ try_apply K wst true inb inb = Ok (w2, out) /\
+                    wr_pos w1 = wr_pos w2 /\ wr_core w1 = wr_core w2.
+Proof. exact ofb_wrapper_inplace_b2b. Qed.
+Print Assumptions C12_ofb_wrapper.
